@@ -17,7 +17,7 @@ def fill(path, tag, text):
 def spectrum():
     p = os.path.join(HERE, "core/spectrum.rs")
     # ---- fold
-    quick = [[1],[2],[4],[5],[7],[1,1],[2,2],[2,3],[3,3],[2,4],[3,4],[1,3],[2,1,2],[2,3,2],[2,2,2],[2,2,2,2]]
+    quick = [[1],[2],[4],[5],[7],[1,1],[2,2],[2,3],[3,3],[2,4],[3,4],[1,3],[2,1,2],[1,2,3],[2,3,2],[2,2,2],[2,2,2,2]]
     thorough = [[3],[6],[3,5],[5,3],[4,4],[2,7],[3,3,3],[3,2,4],[1,2,1,3],[2,3,2,2],[3,1,2,2]]
     t = ""
     for sh, tier in [(s, "quick") for s in quick] + [(s, "thorough") for s in thorough]:
@@ -26,9 +26,9 @@ def spectrum():
         t += f"fold_h!(fold_{sid(sh)}, {len(sh)}, {n}, {lit(sh)}, {max(n, len(sh)) + 3});\n\n"
     fill(p, "FOLD_CASES", t)
     t = ""
-    for sh, tier in [([4],"quick"),([5],"quick"),([2,3],"quick"),([3,3],"quick"),([2,2,2],"quick"),([2,3,2],"thorough"),([3,4],"thorough"),([2,2,2,2],"thorough"),([1,3],"thorough")]:
+    for sh, tier in [([4],"quick"),([5],"quick"),([2,3],"quick"),([1,3],"quick"),([3,3],"thorough"),([2,2,2],"thorough"),([2,3,2],"thorough"),([3,4],"thorough")]:
         n = math.prod(sh)
-        t += f"// @harness props=C05 tier={tier} group=f64 bounds=shape={nos(sh)},cells=0..7,fill=0;mass,idempotence,polarity timeout=1200\n"
+        t += f"// @harness props=C05 tier={tier} group=f64 bounds=shape={nos(sh)},cells=0..3,fill=0;mass,idempotence,polarity timeout=1200\n"
         t += f"fold_laws_h!(fold_laws_{sid(sh)}, {len(sh)}, {n}, {lit(sh)}, {max(n, len(sh)) + 3});\n\n"
     fill(p, "FOLD_LAWS_CASES", t)
     # ---- marginalize
@@ -62,6 +62,18 @@ def spectrum():
 if __name__ == "__main__":
     spectrum()
 
+def project_cases():
+    p = os.path.join(HERE, "core/spectrum.rs")
+    cases = [([3],[1],"quick"),([3],[2],"quick"),([3],[3],"quick"),([5],[3],"quick"),([7],[4],"thorough"),([2],[1],"quick"),
+             ([3,2],[2,2],"quick"),([2,3],[2,2],"quick"),([3,3],[2,3],"thorough"),([3,3],[1,1],"quick"),([3,3],[3,3],"thorough"),
+             ([2,2,2],[2,1,2],"quick"),([2,3,2],[2,2,1],"thorough"),([3,2,3],[2,2,2],"thorough"),([2,2,2,2],[1,2,1,2],"thorough")]
+    t = ""
+    for f, to, tier in cases:
+        n = math.prod(f); m = math.prod(to); r = len(f)
+        t += f"// @harness props=C03,C02 tier={tier} group=f64 bounds=source={nos(f)},target={nos(to)},cells=0..3,pmf=table-stub timeout=1800\n"
+        t += f"project_h!(project_structure_{sid(f)}_to_{sid(to)}, {r}, {n}, {m}, {lit(f)}, {lit(to)}, {max(n, m, r) + 3});\n\n"
+    fill(p, "PROJECT_CASES", t)
+
 def site_reader():
     p = os.path.join(HERE, "core/site_reader.rs")
     t = ""
@@ -77,22 +89,33 @@ def site_reader():
             tier = "quick" if a in quick_counts[d] else "thorough"
             nm = "".join(map(str, a))
             t += f"// @harness props=C01,C08,C11,C10 tier={tier} bounds=populations={d},samples=3,assignment={nos(a)}(0=unselected),genotypes=any-of-6-results,dirty-pre-state timeout=1200\n"
-            t += f"stubs_h!(read_site_counts_d{d}_a{nm}, 8, counts_case::<{d}>({lit(a)}));\n\n"
+            t += f"stubs_h!(read_site_counts_d{d}_a{nm}, stub_npop_{d}, 8, counts_case::<{d}>({lit(a)}));\n\n"
     quick_cls = {1: [[1,1,1],[0,1,1]], 2: [[1,2,1],[2,0,1],[1,1,2]], 3: [[1,2,3]]}
     for d in (1, 2, 3):
         for a in assigns(d):
-            tier = "quick" if a in quick_cls[d] else "thorough"
-            nm = "".join(map(str, a))
-            t += f"// @harness props=C02,C11,C10 tier={tier} bounds=populations={d},samples=3,assignment={nos(a)},target=symbolic-0..2*size,genotypes=any-of-5-results,dirty-pre-state timeout=1200\n"
-            t += f"stubs_h!(read_site_classify_d{d}_a{nm}, 8, classify_case::<{d}>({lit(a)}));\n\n"
-    vals = [([1,1,0],[0],"thorough"),([1,1,0],[1],"quick"),([1,1,1],[2],"quick"),([1,0,1],[3],"thorough"),([1,1,1],[4],"thorough"),
+            for pat in range(8):
+                # patterns that differ only in unselected samples are redundant
+                if any(a[i] == 0 and not (pat >> i) & 1 for i in range(3)): continue
+                # no selected sample called + a projection: CBMC runs out of memory (array post-processing);
+                # that record class is covered without projection by read_site_counts_*
+                if not any(a[i] != 0 and (pat >> i) & 1 for i in range(3)): continue
+                tier = "quick" if a in quick_cls[d] else "thorough"
+                nm = "".join(map(str, a))
+                t += f"// @harness props=C02,C11,C10 tier={tier} bounds=populations={d},samples=3,assignment={nos(a)},called-pattern={pat:03b},target=symbolic-0..2*size,allele-counts=symbolic,dirty-pre-state timeout=900\n"
+                t += f"stubs_h!(read_site_classify_d{d}_a{nm}_p{pat}, stub_npop_{d}, 8, classify_case::<{d}>({lit(a)}, {pat}));\n\n"
+    vals = [([1,1,0],[1],"quick"),([1,1,1],[2],"quick"),([1,1,1],[4],"thorough"),
             ([1,2,1],[1,2],"quick"),([2,1,1],[2,1],"quick"),([1,2,0],[0,1],"thorough"),([1,2,2],[2,2],"thorough"),([1,2,3],[1,1,1],"thorough")]
     for a, m, tier in vals:
         d = len(m); M = math.prod(x + 1 for x in m)
         nm = "".join(map(str, a)); mm = "".join(map(str, m))
-        t += f"// @harness props=C02,C11 tier={tier} group=f64 bounds=populations={d},samples=3,assignment={nos(a)},target={nos(m)},genotypes=any-of-5-results,pmf=table-stub timeout=1800\n"
-        t += f"stubs_h!(#[kani::stub(crate::utils::hypergeometric_pmf, h_stub)] read_site_projected_values_a{nm}_m{mm}, {max(M, 4) + 4}, projected_values_case::<{d}, {M}>({lit(a)}, {lit(m)}));\n\n"
+        for pat in range(8):
+            if any(a[i] == 0 and not (pat >> i) & 1 for i in range(3)): continue
+            if not any(a[i] != 0 and (pat >> i) & 1 for i in range(3)): continue
+            # only patterns with enough called chromosomes produce a value; keep them all (others hit the insufficient arm)
+            t += f"// @harness props=C02,C11 tier={tier} group=f64 bounds=populations={d},samples=3,assignment={nos(a)},target={nos(m)},called-pattern={pat:03b},allele-counts=symbolic,pmf=table-stub timeout=900\n"
+            t += f"stubs_h!(#[kani::stub(crate::utils::hypergeometric_pmf, h_stub)] read_site_projected_values_a{nm}_m{mm}_p{pat}, stub_npop_{d}, {max(M, 4) + 4}, projected_values_case::<{d}, {M}>({lit(a)}, {lit(m)}, {pat}));\n\n"
     fill(p, "SITE_CASES", t)
 
 if __name__ == "__main__":
     site_reader()
+    project_cases()
